@@ -54,7 +54,7 @@ def _hwm(res):
     return int(m.group(1)), int(m.group(2))
 
 
-def validate_chunk(ctx, family, module, cfg, traces, tag, max_rejects=3, timeout_s=1500):
+def validate_chunk(ctx, family, module, cfg, traces, tag, max_rejects=3, timeout_s=3600):
     """Validate a list of traces in one TLC run (re-running after a rejected trace).
     Returns {position in `traces`: None (accepted) | (line offset in trace, raw line) | "unvalidated"}."""
     out = {}
